@@ -15,6 +15,7 @@
 (*   Loop   Stats() answered within the watchdog; zombie = piece downloads *)
 (*          owned by peers rain has already closed; running                *)
 (*   Honest the honest peer's transfer completed with the right bytes      *)
+(*   Mem    bytes allocated by the client process during the scenario      *)
 (*   Proc   the child process crashed / its torrent loop hung              *)
 (* Reader level (real peerreader over net.Pipe):                           *)
 (*   RInit / RFeed (class written) / RGot (message delivered) / REnd       *)
@@ -119,6 +120,14 @@ TrHonest ==
     /\ UNCHANGED vars /\ KeepR
     /\ Nxt(IF Ev.ok = 1 THEN "" ELSE "C08.honest/transfer")
 
+\* @obligation C08.alloc/session  bytes allocated by the whole client during one scenario (<= 10 messages, torrent of
+\* ~116 KiB, max message size 64 KiB) stay far below anything a length / size field of a message could ask for
+SessionAllocBound == 16777216
+TrMem ==
+    /\ Ev.op = "Mem"
+    /\ UNCHANGED vars /\ KeepR
+    /\ Nxt(IF Ev.delta > SessionAllocBound THEN "C08.alloc/session" ELSE "")
+
 \* @obligation C08.crash / C08.hang  (child process died / its loop is blocked for ever)
 TrProc ==
     /\ Ev.op = "Proc"
@@ -173,7 +182,7 @@ TrRAlloc ==
 
 TraceNext ==
     /\ l <= Len(Trace)
-    /\ \/ TrInit \/ TrMsg \/ TrStop \/ TrObs \/ TrAdvance \/ TrLoop \/ TrHonest \/ TrProc
+    /\ \/ TrInit \/ TrMsg \/ TrStop \/ TrObs \/ TrAdvance \/ TrLoop \/ TrHonest \/ TrProc \/ TrMem
        \/ TrRInit \/ TrRFeed \/ TrRGot \/ TrREnd \/ TrRAlloc
 
 TraceSpec == TraceInit /\ [][TraceNext]_tvars
